@@ -725,7 +725,7 @@ class Interp:
 
         if isinstance(typ, tuple):
             return any(self.exc_matches(e, t) for t in typ)
-        name = typ.name if isinstance(typ, ClassVal) else str(typ)
+        name = getattr(typ, "name", None) or str(typ)
         return exc_is_subclass(e.cls, name)
 
     def x_Try(self, s, fr):
